@@ -22,55 +22,84 @@ static const Reducer* reducer_of(const std::string& n) {
   throw std::logic_error("unknown reducer " + n);
 }
 
+// purity bookkeeping (C12): every input layout is dumped when built and again after the call;
+// the result is dumped again after the inputs have been released
+static std::vector<ContentPtr> g_inputs;
+static std::vector<std::string> g_input_dumps;
+static ContentPtr g_result;
+
+static std::string D(const ContentPtr& x) { g_result = x; return dump(x); }
+
 static std::string handle(const Sx& cs) {
   const std::string op = cs[1].a;
-  auto L = [&](size_t i) { return build(cs[i]); };
-  if (op == "id") return dump(L(2));
+  auto L = [&](size_t i) {
+    ContentPtr c = build(cs[i]);
+    g_inputs.push_back(c);
+    g_input_dumps.push_back(dump(c));
+    return c;
+  };
+  if (op == "id") return D(L(2));
+  if (op == "survive") {
+    // entry points that must survive ANY array, valid or not: check, print, describe
+    ContentPtr c = L(2);
+    size_t n = 0;
+    n += c->validityerror("").size();
+    n += c->tostring().size();
+    try { n += c->type(util::TypeStrs())->tostring().size(); } catch (std::exception&) { }
+    try { n += c->form(true)->tojson(false, false).size(); } catch (std::exception&) { }
+    return std::to_string(n > 0 ? 1 : 0);
+  }
+  if (op == "survivejson") {   // ... and convert
+    ContentPtr c = L(2);
+    size_t n = 0;
+    try { n += c->tojson(false, -1, "nan", "inf", "-inf", "r", "i").size(); } catch (std::exception&) { }
+    return std::to_string(n > 0 ? 1 : 0);
+  }
   if (op == "valid") return L(2)->validityerror("").empty() ? "1" : "0";
   if (op == "len") return std::to_string(L(2)->length());
-  if (op == "num") return dump(L(3)->num(to_i64(cs[2]), 0));
+  if (op == "num") return D(L(3)->num(to_i64(cs[2]), 0));
   if (op == "flatten") {
     ContentPtr c = L(3);
     int64_t axis = to_i64(cs[2]);
     // what ak.flatten does for axis != 0 (axis == 0 is handled in Python)
     std::pair<Index64, ContentPtr> p = c->offsets_and_flattened(axis, 0);
-    return dump(p.second);
+    return D(p.second);
   }
-  if (op == "localindex") return dump(L(3)->localindex(to_i64(cs[2]), 0));
-  if (op == "getitem") return dump(L(3)->getitem(build_slice(cs[2])));
-  if (op == "at") return dump(L(3)->getitem_at(to_i64(cs[2])));
-  if (op == "range") return dump(L(4)->getitem_range(to_i64(cs[2]), to_i64(cs[3])));
-  if (op == "carry") return dump(L(3)->carry(mkindex<int64_t>(to_i64s(cs[2])), false));
-  if (op == "field") return dump(L(3)->getitem_field(cs[2].a));
+  if (op == "localindex") return D(L(3)->localindex(to_i64(cs[2]), 0));
+  if (op == "getitem") return D(L(3)->getitem(build_slice(cs[2])));
+  if (op == "at") return D(L(3)->getitem_at(to_i64(cs[2])));
+  if (op == "range") return D(L(4)->getitem_range(to_i64(cs[2]), to_i64(cs[3])));
+  if (op == "carry") return D(L(3)->carry(mkindex<int64_t>(to_i64s(cs[2])), false));
+  if (op == "field") return D(L(3)->getitem_field(cs[2].a));
   if (op == "fields") {
     std::vector<std::string> ks;
     for (auto& k : cs[2].l) ks.push_back(k.a);
-    return dump(L(3)->getitem_fields(ks));
+    return D(L(3)->getitem_fields(ks));
   }
   if (op == "setfield") {  // (id setfield KEY recordlayout what)
     ContentPtr c = L(3);
-    if (const RecordArray* r = dynamic_cast<const RecordArray*>(c.get())) return dump(r->setitem_field(cs[2].a, L(4)));
+    if (const RecordArray* r = dynamic_cast<const RecordArray*>(c.get())) return D(r->setitem_field(cs[2].a, L(4)));
     throw std::invalid_argument("setfield: not a RecordArray");
   }
   if (op == "reduce") {  // (id reduce NAME AXIS MASK KEEPDIMS layout)
-    return dump(L(6)->reduce(*reducer_of(cs[2].a), to_i64(cs[3]), to_i64(cs[4]) != 0, to_i64(cs[5]) != 0));
+    return D(L(6)->reduce(*reducer_of(cs[2].a), to_i64(cs[3]), to_i64(cs[4]) != 0, to_i64(cs[5]) != 0));
   }
-  if (op == "sort") return dump(L(5)->sort(to_i64(cs[2]), to_i64(cs[3]) != 0, to_i64(cs[4]) != 0));
-  if (op == "argsort") return dump(L(5)->argsort(to_i64(cs[2]), to_i64(cs[3]) != 0, to_i64(cs[4]) != 0));
+  if (op == "sort") return D(L(5)->sort(to_i64(cs[2]), to_i64(cs[3]) != 0, to_i64(cs[4]) != 0));
+  if (op == "argsort") return D(L(5)->argsort(to_i64(cs[2]), to_i64(cs[3]) != 0, to_i64(cs[4]) != 0));
   if (op == "combinations") {  // (id combinations N REPL AXIS layout)
-    return dump(L(5)->combinations(to_i64(cs[2]), to_i64(cs[3]) != 0, nullptr, util::Parameters(), to_i64(cs[4]), 0));
+    return D(L(5)->combinations(to_i64(cs[2]), to_i64(cs[3]) != 0, nullptr, util::Parameters(), to_i64(cs[4]), 0));
   }
-  if (op == "rpad") return dump(L(4)->rpad(to_i64(cs[2]), to_i64(cs[3]), 0));
-  if (op == "rpadclip") return dump(L(4)->rpad_and_clip(to_i64(cs[2]), to_i64(cs[3]), 0));
-  if (op == "fillna") return dump(L(2)->fillna(L(3)));
+  if (op == "rpad") return D(L(4)->rpad(to_i64(cs[2]), to_i64(cs[3]), 0));
+  if (op == "rpadclip") return D(L(4)->rpad_and_clip(to_i64(cs[2]), to_i64(cs[3]), 0));
+  if (op == "fillna") return D(L(2)->fillna(L(3)));
   if (op == "mergemany") {
     ContentPtr first = L(2);
     ContentPtrVec others;
     for (size_t i = 3; i < cs.size(); i++) others.push_back(L(i));
-    return dump(first->mergemany(others));
+    return D(first->mergemany(others));
   }
-  if (op == "merge") return dump(L(2)->merge(L(3)));
-  if (op == "simplify") return dump(L(2)->shallow_simplify());
+  if (op == "merge") return D(L(2)->merge(L(3)));
+  if (op == "simplify") return D(L(2)->shallow_simplify());
   if (op == "type") {
     std::string t = L(2)->type(util::TypeStrs())->tostring();
     std::string o = "(";
@@ -87,11 +116,34 @@ static std::string handle(const Sx& cs) {
   if (op == "tolist64") {
     ContentPtr c = L(3);
     bool start_at_zero = to_i64(cs[2]) != 0;
-#define TL(T) if (const T* r = dynamic_cast<const T*>(c.get())) return dump(r->toListOffsetArray64(start_at_zero));
+#define TL(T) if (const T* r = dynamic_cast<const T*>(c.get())) return D(r->toListOffsetArray64(start_at_zero));
     TL(ListOffsetArray32) TL(ListOffsetArrayU32) TL(ListOffsetArray64) TL(ListArray32) TL(ListArrayU32) TL(ListArray64) TL(RegularArray)
     throw std::logic_error("tolist64: not a list node");
   }
   throw std::logic_error("unknown op " + op);
 }
 
-int main() { return run_cases(handle); }
+static std::string checked(const Sx& cs) {
+  g_inputs.clear(); g_input_dumps.clear(); g_result.reset();
+  std::string out = handle(cs);
+  for (size_t k = 0; k < g_inputs.size(); k++) {
+    if (dump(g_inputs[k]) != g_input_dumps[k]) {
+      g_inputs.clear(); g_result.reset();
+      throw std::domain_error("impure: input " + std::to_string(k) + " changed");
+    }
+  }
+  g_inputs.clear(); g_input_dumps.clear();
+  if (g_result.get() != nullptr) {
+    // the inputs are gone: the result must still read the same (scribble over freed memory first)
+    {
+      std::vector<std::vector<int64_t>> junk;
+      for (int n = 0; n < 8; n++) junk.push_back(std::vector<int64_t>(64 + 37 * n, (int64_t)0x5a5a5a5a5a5a5a5aLL));
+    }
+    std::string again = dump(g_result);
+    g_result.reset();
+    if (again != out) throw std::domain_error("impure: result changed after its inputs were released");
+  }
+  return out;
+}
+
+int main() { return run_cases(checked); }
